@@ -359,6 +359,28 @@ func (d *V2) do(op Op) Resp {
 			return errResp(err)
 		}
 		return Resp{Desc: descFromV2(out.TableDescription)}
+	case KUpdateTbl:
+		in := &dynamodb.UpdateTableInput{TableName: aws.String(op.Table)}
+		for _, ch := range op.Changes {
+			if g := ch.Create; g != nil {
+				in.AttributeDefinitions = append(in.AttributeDefinitions, types.AttributeDefinition{AttributeName: aws.String(g.Hash), AttributeType: scalarV2(g.HashT)})
+				if g.Range != "" {
+					in.AttributeDefinitions = append(in.AttributeDefinitions, types.AttributeDefinition{AttributeName: aws.String(g.Range), AttributeType: scalarV2(g.RangeT)})
+				}
+				in.GlobalSecondaryIndexUpdates = append(in.GlobalSecondaryIndexUpdates, types.GlobalSecondaryIndexUpdate{Create: &types.CreateGlobalSecondaryIndexAction{
+					IndexName: aws.String(g.Name), KeySchema: keySchemaV2(g.Hash, g.Range),
+					Projection:            &types.Projection{ProjectionType: types.ProjectionTypeAll},
+					ProvisionedThroughput: throughputV2(g.Throughput),
+				}})
+			} else {
+				in.GlobalSecondaryIndexUpdates = append(in.GlobalSecondaryIndexUpdates, types.GlobalSecondaryIndexUpdate{Delete: &types.DeleteGlobalSecondaryIndexAction{IndexName: aws.String(ch.Delete)}})
+			}
+		}
+		out, err := c.UpdateTable(ctx, in)
+		if err != nil {
+			return errResp(err)
+		}
+		return Resp{Desc: descFromV2(out.TableDescription)}
 	case KAddIndex:
 		g := op.IdxCfg
 		return errResp(v2.AddIndex(ctx, c, op.Table, g.Name, g.Hash, g.Range))
